@@ -24,7 +24,8 @@ BOUNDS = {"quick": "full product with all 8 lengths; hierarchies depth 3, 2^3 in
 
 LENS_Q = [0, 1, 24, 256, 65536]
 LENS_T = [0, 1, 23, 24, 255, 256, 65535, 65536]
-NAMES = ["fw.bin", "deadbeef.bin", "cafe/f00d", "./abcdef", "a b.bin", "zażółć_€.bin", "0x0e0aa000", "0X0E0AA000", "fw[1]*?.bin", "-{fw}#.v2.bin"]
+NAMES = ["fw.bin", "deadbeef.bin", "cafe/f00d", "./abcdef", "a b.bin", "zażółć_€.bin", "0x0e0aa000", "0X0E0AA000", "fw[1]*?.bin", "-{fw}#.v2.bin", "app_$SVMC_BOARD.bin", "dep_${SVMC_BOARD}_~user.suit"]
+ENV_DECOYS = {"app_$SVMC_BOARD.bin": "app_nrf54.bin", "dep_${SVMC_BOARD}_~user.suit": "dep_nrf54_~user.suit"}
 
 
 def content(n, salt=0):
@@ -84,6 +85,11 @@ def run_file(case, agg):
         os.makedirs(os.path.dirname(os.path.normpath(path_abs)), exist_ok=True)
         ref = name if rel else os.path.normpath(path_abs)
         data = content(L, case["name"])
+        if name in ENV_DECOYS:
+            # the environment defines the variable the file name seems to mention, and a file of the expanded name exists
+            # (with other content and length): the description names the file literally
+            os.environ["SVMC_BOARD"] = "nrf54"
+            open(os.path.join(root, ENV_DECOYS[name]), "wb").write(b"the file of the EXPANDED name " * 7)
 
         def put(path, blob):
             """the referenced file; for link cases the name given in the description is a symbolic link to it (an
@@ -174,6 +180,7 @@ def run_file(case, agg):
                 return
         finally:
             os.chdir(old)
+            os.environ.pop("SVMC_BOARD", None)
     try:
         pm, env = find_params(out)
         if field == "digest":
@@ -360,9 +367,74 @@ def run_change(case, agg):
         agg.ok(key, "ok:follows-the-file", sample=case if case["order"] == "grow" and form == "inline-dependency-payload-path" else None)
 
 
+# -- one reference mapping shared by several entries (YAML alias / merge key, a dict reused by a library caller) -----
+
+def shared_cases(tier):
+    return [{"form": f, "a1": a1, "a2": a2, "via": via} for f in ("file", "envelope-path", "envelope-inline", "file_direct")
+            for a1, a2 in itertools.permutations(gen.ALG5, 2) for via in ("lib", "main-yaml")]
+
+
+def run_shared(case, agg):
+    """two digest entries with DIFFERENT algorithms point at ONE reference mapping object (in YAML: an anchor and its
+    alias): each entry carries the hash of the artifact under its own algorithm"""
+    form, a1, a2 = case["form"], case["a1"], case["a2"]
+    c1, c2 = registry.HASH_ALGS[a1], registry.HASH_ALGS[a2]
+    label = f"one shared {form} mapping under {a1} and {a2}, via {case['via']}"
+    with fresh_dir("c05s") as root:
+        data = content(300, 5)
+        child = rich_child(4, "cose-alg-sha-256")
+        child_bytes = impl.tool_create(child)
+        fpath = os.path.join(root, "artifact.bin")
+        if form == "file":
+            open(fpath, "wb").write(data)
+            shared = {"file": fpath}
+            w1, w2 = registry.digest(c1, data), registry.digest(c2, data)
+        elif form == "file_direct":
+            open(fpath, "wb").write(b"\x5a" * 20)
+            shared = {"file_direct": fpath}
+            w1 = w2 = b"\x5a" * 20
+        elif form == "envelope-path":
+            open(fpath, "wb").write(child_bytes)
+            shared = {"envelope": fpath}
+            w1, w2 = registry.digest(c1, _man_item(child_bytes)), registry.digest(c2, _man_item(child_bytes))
+        else:
+            shared = {"envelope": child}
+            w1, w2 = registry.digest(c1, _man_item(child_bytes)), registry.digest(c2, _man_item(child_bytes))
+        d1 = {"suit-digest-algorithm-id": a1, "suit-digest-bytes": shared}
+        d2 = {"suit-digest-algorithm-id": a2, "suit-digest-bytes": shared}       # the SAME object
+        desc = gen.minimal(man={"suit-validate": [{"suit-directive-override-parameters": {"suit-parameter-image-digest": d1}}],
+                                "suit-install": [{"suit-directive-override-parameters": {"suit-parameter-image-digest": d2}}]})
+        try:
+            if case["via"] == "lib":
+                out = impl.tool_create(desc)          # deepcopy keeps the sharing
+            else:
+                out = impl.tool_create_main(desc, root, "yaml")      # safe_dump writes the shared mapping as &id001 / *id001
+        except Exception as e:
+            agg.viol(f"C05:shared-mapping/create-failed/{type(e).__name__}", f"{label}: {type(e).__name__}: {str(e)[:200]}")
+            return
+    try:
+        env, raw = impl.envelope_members(out)
+        man = refcbor.decode(env.get(3).value)
+        got = []
+        for code in (7, 20):
+            seq = refcbor.decode(man.get(code).value)
+            dg = refcbor.decode(seq.items[1].get(3).value)
+            got.append((dg.items[0].value, dg.items[1].value))
+    except Exception as e:
+        agg.viol("C05:shared-mapping/output-structure", f"{label}: {type(e).__name__}: {e}")
+        return
+    if got != [(c1, w1), (c2, w2)]:
+        agg.viol(f"C05:shared-mapping/{form}", f"{label}: digests {[(a, v[:8].hex(), len(v)) for a, v in got]}, the artifact gives "
+                 f"{[(c1, w1[:8].hex(), len(w1)), (c2, w2[:8].hex(), len(w2))]}")
+    else:
+        agg.ok(h8("c05s", case), f"ok:{case['via']}", sample=case if a1 == gen.ALG5[0] and a2 == gen.ALG5[3] and form == "file" else None)
+
+
 def plan(tier):
     return [
         CaseStage("file-references", lambda: file_cases(tier), run_file, disjoint=True, rule="form x field x alg x length x name x abs/rel"),
+        CaseStage("shared-reference-mapping", lambda: shared_cases(tier), run_shared,
+                  rule="4 reference forms x 20 ordered algorithm pairs x library (shared dict) / YAML (anchor + alias)"),
         CaseStage("hierarchies", lambda: hier_cases(tier), run_hier, rule="depth-3 hierarchies, inline/path per level, algorithm pairs"),
         CaseStage("file-changed-between-creations", lambda: change_cases(tier), run_change, rule="9 reference forms x {grow, shrink}: second creation in the same process vs a fresh process"),
     ]
